@@ -146,6 +146,9 @@ def scenarios(tier, rng):
             s.add("SET", 0, "str", "-", h(k), h(txt.encode()))
             for ty in ("int", "uint", "int64", "uint64"):
                 s.add("GET", 0, ty, "-", h(k))
+            # the getters with a default, on a key that exists: the same answer (the default plays no part)
+            for ty in ("int", "uint", "int64", "uint64"):
+                s.add("GETD", 0, ty, "-", h(k), "7")
         out.append(s)
     fl = float_literals(rng, 300 if tier == "quick" else 20000)
     for i in range(0, len(fl), 20):
@@ -212,6 +215,12 @@ def oracle(s, lines):
                 got = next(it)
                 if got != want:
                     return "literal %r read as %s: %r, expected %r" % (txt, ty, got, want)
+            for ty in ("int", "uint", "int64", "uint64"):
+                lo, hi = LIMITS[ty]
+                want = "get E0 %d" % v if lo <= v <= hi else "get E24"
+                got = next(it)
+                if got != want:
+                    return "literal %r read as %s by the getter with a default: %r, expected %r" % (txt, ty, got, want)
         return None
     if "floats" in m:
         it = iter(lines[1:])
